@@ -32,18 +32,18 @@ _BWNOTE = ("Assumes lock-section + environment-event granularity is enough (all 
 chk("C01", "model_checking",
     "explicit-state BFS over the real broker under a controlled scheduler (hook gates), reference-model conformance after every step",
     _BW + "C01: <=3 (thorough 4) attempts over IDs {k, kk, K, empty, /io}, every order of admissions, stream endings, releases, cancellations and shutdown; "
-    "oracles: refused attempts end at once, never see I/O, are announced; only the attached pair sees a probe line / chunk; IDs equal. HTTP seam: every ordered pair of streams over /i/{id}, /o/{id} (6 ID spellings incl. percent-encoded and case variants) and /io through the real handlers over TLS with probe line and chunk. Two simultaneous /io requests are part of the mixed profile. The HTTP seam's IDs include one whose decoded form still looks percent-encoded.",
+    "oracles: refused attempts end at once, never see I/O, are announced; only the attached pair sees a probe line / chunk; IDs equal. HTTP seam: every ordered pair of streams over /i/{id}, /o/{id} (6 ID spellings incl. percent-encoded and case variants) and /io through the real handlers over TLS with probe line and chunk. Two simultaneous /io requests are part of the mixed profile. The HTTP seam's IDs include one whose decoded form still looks percent-encoded. Streams may also end because a write to them fails (uni profile). HTTP seam: one host making five attempts that must be refused, back to back: each is announced.",
     _BWNOTE, "DESIGN.md 4, 5 C01")
 chk("C04", "model_checking",
     "explicit-state BFS over the real broker under a controlled scheduler, goroutine census at quiescence",
     _BW + "C04: every ending (EOF, error, data+error, write/flush failure, cancel, input closed, shutdown) in every life state of uni- and bidirectional shells over "
     "successive shells, plus a stalled-terminal flood on an unbuffered operator channel; oracles: peer ends without traffic, exactly one ready/gone notice and event, "
-    "closure notices, no goroutine of an ended shell left, Do returns only when nothing is attached. Stalled terminal: notices are counted over the whole history (once a Connect call has returned, its closure/ready/gone notices must have been handed to the slow operator). HTTP seam: every way a client can end a direction over real TLS connections, several shells in a row. Wiring seam: the real binary under every boolean flag (alone and together), three shells in a row ended three ways: the listener re-arms, one gone notice each.",
+    "closure notices, no goroutine of an ended shell left, Do returns only when nothing is attached. Stalled terminal: notices are counted over the whole history (once a Connect call has returned, its closure/ready/gone notices must have been handed to the slow operator). HTTP seam: every way a client can end a direction over real TLS connections, several shells in a row. Wiring seam: the real binary under every boolean flag (alone and together), three shells in a row ended three ways: the listener re-arms, one gone notice each. Virtual clock (a second build): a shell whose streams are not the broker's to cancel, a stalled terminal, shutdown, ten minutes pass: Broker.Do must not have returned.",
     _BWNOTE, "DESIGN.md 4, 5 C04")
 chk("C06", "model_checking",
     "explicit-state BFS over the real broker under a controlled scheduler: every admission order of the halves of 2-4 /io requests",
     _BW + "C06: 2 (thorough up to 4) simultaneous ConnectInOut calls plus unidirectional streams, each half parked separately, every admission order, "
-    "cancellations and releases; oracle: the attached pair always belongs to one request (checked on state, on who receives the probe line and whose reader is drained). Gated HTTP seam: real /io, /i, /o requests over TLS whose broker halves are parked by the hooks, every admission order (4-8 halves) executed, pairing judged by the hooks and by probe traffic. Wiring seam: the real binary started with one and with two -listen-address flags, two /io clients on every address that accepts: at most one shell.",
+    "cancellations and releases; oracle: the attached pair always belongs to one request (checked on state, on who receives the probe line and whose reader is drained). Gated HTTP seam: real /io, /i, /o requests over TLS whose broker halves are parked by the hooks, every admission order (4-8 halves) executed, pairing judged by the hooks and by probe traffic. Wiring seam: the real binary started with one and with two -listen-address flags, two /io clients on every address that accepts: at most one shell. HTTP seam: a unidirectional shell loses its input connection, a /io client becomes the shell, the old output connection sends a chunk: it belongs to no shell.",
     _BWNOTE, "DESIGN.md 4, 5 C06")
 
 chk("C02", "model_checking",
@@ -57,13 +57,13 @@ chk("C03", "model_checking",
     "explicit-state BFS over the real broker: every sequence of read results x every terminal speed (unbuffered, one-slot, roomy operator channel)",
     _BW + "C03: every sequence of <=3 (thorough 4-5) read results over {data, zero-length, data+EOF/unexpected EOF/error, bare EOF/closed pipe/error, sizes 1/2047/2048/2049/5000}, "
     "operator channel of capacity 0, 1 and 1024 consumed at every relative speed, cancellation at every point (also simultaneously with a read returning); oracle: what is shown is "
-    "always a prefix of what was sent, complete and in front of the close notice when the stream ended by itself. Terminal seam: every sequence of <=4 (thorough 6) items over {chunk, chunk without newline, multi-line chunk, close-style notice, status line} through the real opshell.Shell on a pty, stepwise / burst / backlog before start: terminal = CR-LF translation, in order. The seam alphabet also has a chunk with CR LF and a chunk that repeats byte for byte. HTTP seam: every chunking x ending of a real upload. Quiet spell: a second build with the clocks of internal/hsrv and internal/iobroker virtual; after 1 s..20 min of quiet (every due timer fired in order) 32 chunks must still be displayed exactly. Handler seam: requests with scripted bodies (every sequence of <=3 read results incl. data together with reset / unexpected EOF / closed pipe) through the real mux and handlers into the real broker. A connection cut (FIN) in the middle of a chunk over TLS (known finding D11). The operator's side may also be found waiting (await event); a free-running complement (real broker, busy reader, cancellation at every position; prefix oracle) samples what lies inside one event.",
+    "always a prefix of what was sent, complete and in front of the close notice when the stream ended by itself. Terminal seam: every sequence of <=4 (thorough 6) items over {chunk, chunk without newline, multi-line chunk, close-style notice, status line} through the real opshell.Shell on a pty, stepwise / burst / backlog before start: terminal = CR-LF translation, in order. The seam alphabet also has a chunk with CR LF and a chunk that repeats byte for byte. HTTP seam: every chunking x ending of a real upload. Quiet spell: a second build with the clocks of internal/hsrv and internal/iobroker virtual; after 1 s..20 min of quiet (every due timer fired in order) 32 chunks must still be displayed exactly. Handler seam: requests with scripted bodies (every sequence of <=3 read results incl. data together with reset / unexpected EOF / closed pipe) through the real mux and handlers into the real broker. A connection cut (FIN) in the middle of a chunk over TLS (known finding D11). The operator's side may also be found waiting (await event); a free-running complement (real broker, busy reader, cancellation at every position; prefix oracle) samples what lies inside one event. A terminal that takes only part of a write (EAGAIN): what it holds when read out later is a prefix of what was sent.",
     _BWNOTE, "DESIGN.md 4, 5 C03")
 chk("C11", "model_checking",
     "explicit-state BFS over the real broker with a capturing slog handler and a real slog JSON handler; exhaustive payload enumeration",
     _BW + "C11: histories of accepted, refused (every reason) and ended streams with lines delivered/failed and chunks shown/dropped; oracle per step: Shell I/O records in bijection and order "
     "with delivered lines and displayed chunks (also with an unbuffered operator channel), one connect and one disconnect record per accepted stream, one error-level record naming the reason "
-    "per refusal; every record also goes through slog's JSON handler and must come out as one parsable line carrying the JSON image of the data (all strings of <=2 (thorough 3) JSON-hostile symbols). Also: no record may be written after Broker.Do has returned (the capturing handler yields before storing, records and Do's return carry a global sequence number); one end-to-end session of the real binary with -log, the file parsed line by line. A second such session is ended by SIGKILL once both handlers have returned: the file must be as complete. Free-running complement with a log sink that takes 0.3 ms per record while output flows and the stream is cancelled / shut down / ends.",
+    "per refusal; every record also goes through slog's JSON handler and must come out as one parsable line carrying the JSON image of the data (all strings of <=2 (thorough 3) JSON-hostile symbols). Also: no record may be written after Broker.Do has returned (the capturing handler yields before storing, records and Do's return carry a global sequence number); one end-to-end session of the real binary with -log, the file parsed line by line. A second such session is ended by SIGKILL once both handlers have returned: the file must be as complete. Free-running complement with a log sink that takes 0.3 ms per record while output flows and the stream is cancelled / shut down / ends. Virtual clock: an input stream that accepts its line only after a minute; delivered lines = input records.",
     _BWNOTE + " The -log file of the real binary is the same handler writing to a file; the file itself is not exercised here.",
     "DESIGN.md 4, 5 C11")
 
@@ -72,7 +72,7 @@ chk("C17", "exploration",
     "Every directory with <=3 (thorough 4) entries over 12 names (spaces, glob characters, dot-files, editor lock/backup names, several extensions) x 6 entry kinds "
     "(regular, empty, no final newline, sub-directory, symlink to a regular file, dangling symlink on dot/non-matching names) built for real so os.DirFS is exercised, "
     "converted twice with 4 filter tables (default, extended, reduced, overlapping with a user filter); single-file and multi-source forms; an fstest.MapFS variant. "
-    "Failing trees are reduced to the minimal ones before reporting.",
+    "Failing trees are reduced to the minimal ones before reporting. Eligible files of 1-3 MiB in a directory and as single-file sources.",
     "Per-file conversion is a black box here (C16 owns FromPerl). Symlinks to regular files may be included or omitted; an empty conversion contributes nothing.",
     "DESIGN.md 5 C17")
 chk("C18", "exploration",
@@ -88,7 +88,7 @@ chk("C16", "exploration",
     "One program per byte value 1..255 in both quote styles, 135 consecutive script lengths (all residues mod 45 and 3) in two shapes, every sequence of <=2 (thorough 3) statements "
     "over an 11-statement grammar x 6 leading-comment shapes x argument/stdin settings, 12 argument vectors, sizes to 64 KiB, empty and whitespace-only scripts, each under dash and bash; "
     "dynamic oracle: same stdout and exit status (die: failure status + message); static oracle: the function body, with the s/b substitution reversed and decoded by a reference "
-    "uudecoder, equals the statement's program text, kept comments and function name. The grammar includes literals and here-docs with trailing blanks and lines that merely look like __END__ / __DATA__. Converter histories: one long-lived Converter converts a directory while the script is replaced by an older / same-age / newer file and other Converters' tables are changed (every history of <=4 operations, real directory and MapFS); the function text must be the wrapped form of the script that is there now.",
+    "uudecoder, equals the statement's program text, kept comments and function name. The grammar includes literals and here-docs with trailing blanks and lines that merely look like __END__ / __DATA__. Converter histories: one long-lived Converter converts a directory while the script is replaced by an older / same-age / newer file and other Converters' tables are changed (every history of <=4 operations, real directory and MapFS); the function text must be the wrapped form of the script that is there now. Reader shapes for FromPerl: one byte at a time, halves, data together with EOF, everything together with EOF, a reader that times out.",
     "'Every Perl program' is not enumerable: the grammar covers the constructs the quantifier names. $0/__FILE__/__DATA__ excluded as the statement says. Known finding: the empty script (see known_findings.json).",
     "DESIGN.md 5 C16")
 
@@ -96,7 +96,7 @@ chk("C10", "exploration",
     "bounded exhaustive enumeration of printf-significant token strings in every client-controlled position of every reporting handler, over real TLS against the in-process server",
     "Every string of <=3 (thorough 4) tokens over {%, %%, s, d, v, q, x, 20, -, +, #, *, [1], !, a, %20, %25, %73, %2B} as file path, file query, c2 parameter (valid and invalid escapes), c2 header, "
     "another /c parameter, /i ID and /o ID (refused and attaching), Host; the template-missing/unparsable/exec-failure and files-directory-missing error branches; client addresses with a percent "
-    "sign (zoned link-local IPv6) when the host has one. Oracle: the notice about the request carries the text as data and no formatter artefact the client did not send. Also the last seam: %-bearing notices and chunks through the real opshell.Shell on a pty must reach the terminal verbatim. net/http's own connection notices (plaintext or a broken handshake on the TLS port) from a zoned client are checked too. Host values with a label that claims to be punycode (xn--<text>); 48 clients failing the handshake at the same moment must each be named exactly once (a sampling complement).",
+    "sign (zoned link-local IPv6) when the host has one. Oracle: the notice about the request carries the text as data and no formatter artefact the client did not send. Also the last seam: %-bearing notices and chunks through the real opshell.Shell on a pty must reach the terminal verbatim. net/http's own connection notices (plaintext or a broken handshake on the TLS port) from a zoned client are checked too. Host values with a label that claims to be punycode (xn--<text>); 48 clients failing the handshake at the same moment must each be named exactly once (a sampling complement). A script that cannot be delivered (a template of several MiB, clients that hang up without reading).",
     "Only requests net/http lets through to a handler can be explored. The 'every call site in the tree' clause of the quantifier is not decided by this technique (a static scan is another family); only sites reached by requests are exercised.",
     "DESIGN.md 5 C10")
 
@@ -106,21 +106,21 @@ chk("C05", "exploration",
     "exhaustive product of start-up configurations and restart/overlap histories, pin recomputed from the wire certificate, real curl --pinnedpubkey",
     _HW + "C05: key source {none, cache created, cache reused over 3 starts} x 6 listen-address forms x 6 callback-address sets x files x template; every sha256// value in the start-up notices, "
     "the help re-printed after a shell died and two /c bodies equals base64(SHA-256(SPKI)) of the leaf seen in two handshakes; one-liners name the bound port unless the user gave one; real curl "
-    "accepts the advertised pin and refuses a one-character variant; an instance keeps serving what it advertised while its cache file is deleted/re-created/rewritten by another instance; four instances started together on a fresh cache path. Also: hand-made caches (a certificate section holding a chain; a certificate whose validity has passed) over three starts, and the real binary on a pty (fingerprints and ports as printed on the terminal, restart on the same cache). 16 clients requesting scripts at once (6 400 / 64 000 scripts): both pins of every script are the listener's (a sampling complement for shared rendering state).",
+    "accepts the advertised pin and refuses a one-character variant; an instance keeps serving what it advertised while its cache file is deleted/re-created/rewritten by another instance; four instances started together on a fresh cache path. Also: hand-made caches (a certificate section holding a chain; a certificate whose validity has passed) over three starts, and the real binary on a pty (fingerprints and ports as printed on the terminal, restart on the same cache). 16 clients requesting scripts at once (6 400 / 64 000 scripts): both pins of every script are the listener's (a sampling complement for shared rendering state). Every host:port the user supplied is among the printed addresses (ports up to 65535); curl --tls-max 1.2 with the advertised pin.",
     "Key values are not enumerable; the oracle is relational per generated key. A start the program refuses is outside this property.",
     "DESIGN.md 5 C05")
 chk("C07", "exploration",
     "exhaustive product of address sources, exhaustive template-edit histories to a depth, scripts executed by /bin/sh with real curl",
     _HW + "C07: c2 parameter (query and POST form; plain, URL-encoded, IPv6 literal) x c2 header x Host (absent/HTTP/1.0, name, name:port, two IDN names via absolute-form target) x SNI on IPv4 and IPv6 listeners against a 5-line reference precedence function; "
     "both curl lines carry the wire pin, the same address and the same fresh [0-9a-z]+ ID (distinct over 500-2000 scripts); every history of <=4 (thorough 5) template-file operations "
-    "{T1, T2, unparsable, failing at execution, remove} with two requests after each; the script piped to /bin/sh for Host / c2 param / c2 header [::1] / SNI sources x default and custom template with a marker command round trip. Also IPv6-literal Host values and 16 x 1 500 (thorough 6 000) concurrent /c requests whose IDs must be pairwise distinct (a sampling complement). Each of those 16 clients uses a callback address of its own length and checks every script against its own request. Template histories start from a good, a missing and an unparsable template file.",
+    "{T1, T2, unparsable, failing at execution, remove} with two requests after each; the script piped to /bin/sh for Host / c2 param / c2 header [::1] / SNI sources x default and custom template with a marker command round trip. Also IPv6-literal Host values and 16 x 1 500 (thorough 6 000) concurrent /c requests whose IDs must be pairwise distinct (a sampling complement). Each of those 16 clients uses a callback address of its own length and checks every script against its own request. Template histories start from a good, a missing and an unparsable template file and include a 100 kB template.",
     "Addresses that do not route back to this host are checked textually only.",
     "DESIGN.md 5 C07")
 chk("C09", "exploration",
     "bounded exhaustive enumeration of raw request targets against real directory trees with canaries outside, all three configurations",
     _HW + "C09: every target of <=3 segments (thorough: larger segment set, 4 segments over the core set) over dot-segments, encoded/double-encoded dots, encoded slashes, backslashes, NUL, empty segments, "
     "shell-endpoint names, canary names and a 4 KiB segment x 3 prefixes x 3 suffixes, 301s followed once, against 3 trees (flat, nested, files named c/io/i/x/o/x) + single-file + unset; oracle: no canary content ever, "
-    "no outside listing, 200 bodies are files/listings of the tree (single file: exactly that file; unset: no non-shell 2xx, file handler never runs), shell endpoints keep acting as such (by their notices), one 'File requested' notice per file response. Also: siblings whose names begin with the tree's name reached through every spelling of .. that survives the mux; shell endpoints with POST/PUT/DELETE/OPTIONS; 40 file requests against an operator queue of 8 (a stalled terminal) must all be reported. Single-file mode under concurrency (a 3 MiB file fetched by 8 clients at once, three rounds) and after the file was replaced by rename. Long targets (13 KB; a 431 below net/http's own limit counts as refusing the request). Single-file mode in a worker process with ~40 spare descriptors and the collector off: 300 requests, each must get the file.",
+    "no outside listing, 200 bodies are files/listings of the tree (single file: exactly that file; unset: no non-shell 2xx, file handler never runs), shell endpoints keep acting as such (by their notices), one 'File requested' notice per file response. Also: siblings whose names begin with the tree's name reached through every spelling of .. that survives the mux; shell endpoints with POST/PUT/DELETE/OPTIONS; 40 file requests against an operator queue of 8 (a stalled terminal) must all be reported. Single-file mode under concurrency (a 3 MiB file fetched by 8 clients at once, three rounds) and after the file was replaced by rename. Long targets (13 KB; a 431 below net/http's own limit counts as refusing the request). Single-file mode in a worker process with ~40 spare descriptors and the collector off: 300 requests, each must get the file. /c with queries its handler cannot parse stays /c.",
     "Symlinks inside the tree are outside the quantifier. net/http's own 400/301 answers are only checked for leaking content.",
     "DESIGN.md 5 C09")
 
@@ -129,14 +129,14 @@ chk("C13", "model_checking",
     "Real TLS servers A, B, C (C presents the chain [C, A]) and I (a copy of A's certificate - subject, issuer, serial number, validity - around another key); (a) every (server, fingerprint spelling) pair over 11 spellings (plain, prefixed, unpadded, 31/33 bytes, non-base64, prefix only, double prefix, "
     "trailing blank, none); (b) every history of <=3 calls over 7 configurations (same URL with different pins included); (c) every schedule of 2 (thorough 3) concurrent calls, the scheduling points being the "
     "callbacks Go makes (Output() sits exactly between transport configuration and the request). Oracle: reference verdict (chain contains the pinned key / ordinary validation), the server's handler runs and receives body bytes "
-    "only for accepted calls, a call reaches only its own server, http.DefaultClient / DefaultTransport settings unchanged after every step. Thorough adds a free-running -race pass. The pinned calls are repeated with a default transport that sends everything through a CONNECT proxy of the harness and trusts every server's certificate: same verdicts.",
+    "only for accepted calls, a call reaches only its own server, http.DefaultClient / DefaultTransport settings unchanged after every step. Thorough adds a free-running -race pass. The pinned calls are repeated with a default transport that sends everything through a CONNECT proxy of the harness and trusts every server's certificate: same verdicts. Servers U (a second certificate in the chain whose key Go cannot marshal) and S (a key whose pin begins with a slash, both spellings).",
     "Scheduling granularity is the callbacks, not every instruction; the -race pass covers unsynchronised accesses.",
     "DESIGN.md 5 C13")
 chk("C14", "exploration",
     "exhaustive grid over output size x descriptor x owned consumer/exit order x input x exit status against the real CmdShell and a helper child, child state read from /proc",
     "Real CmdShell around this binary as child writing position-stamped bytes: sizes {0, 8, 4096, 32768, 32776, 65536, 65544, 98304, 200000} x {stdout, stderr, both} x bytes read before the child is gone or "
     "blocked in write {0, 8, 4096, 32768, N-8, N} x input {empty, 1 KiB / 100 KiB echoed through the child, never closed} x exit status {0, 3}, consumers pausing 0.3-1.2 s after the child is gone, inputs to 1 MiB; "
-    "oracle: every stream arrives complete and in per-stream order before the terminal condition, input unchanged, nil for exit 0, error for exit 3. Also children that die by SIGKILL / SIGTERM (an unsuccessful exit), and a 30 s watchdog on the end of the output stream while the input is still open. End-to-end seam: simpleshell.Go + CmdShell against a slow HTTPS server (HTTP/2 and HTTP/1.1) that keeps sending input; a command writing 200 kB / 3 MiB and exiting with its input open: every byte arrives, then a clean end.",
+    "oracle: every stream arrives complete and in per-stream order before the terminal condition, input unchanged, nil for exit 0, error for exit 3. Also children that die by SIGKILL / SIGTERM (an unsuccessful exit), and a 30 s watchdog on the end of the output stream while the input is still open. End-to-end seam: simpleshell.Go + CmdShell against a slow HTTPS server (HTTP/2 and HTTP/1.1) that keeps sending input; a command writing 200 kB / 3 MiB and exiting with its input open: every byte arrives, then a clean end. Output sizes that do not end in a newline; CR LF pairs in the input.",
     "Kernel pipe semantics trusted; the schedule axis is one owned choice plus a pause, not every interleaving of the copy goroutines.",
     "DESIGN.md 5 C14")
 
@@ -145,7 +145,7 @@ chk("C08", "fault_enumeration",
     "lib/sstls is built with its os import rewritten (overlay) to a logging/crash-injecting shim. (a) every crash point of the real GetCertificate write path: before each mutating call and after every byte count 0..n (~815) of "
     "WriteFile, each followed by a recovery run on the same directory and a real in-memory TLS handshake; (b) every byte offset of a complete cache file x 6 replacements (~4800), by region; (c) every history of <=4 (thorough 6) "
     "operations over {start, start without cache, delete cache, torn write at 3 lengths} against a key-identity model; (d) missing-directory nesting 0..4 x umask {0, 022, 077} with modes checked after every step. "
-    "Oracle: recovery fails or serves the key that was being saved (never another, never an unusable pair), an existing file is never rewritten, file 0600 / directories 0700 at every point. Damage classes: 16 (every single-bit flip of the low six bits and the top bit, +1, -1, six fixed characters); restarts of caches whose certificate lives 1 ns / 1 s / 1 h. Above GetCertificate: every history of <=3 starts through sstls.Listen (fine / address in use / bad address) on one cache path, from a missing and an existing cache; the HTTPS server started the program's way (hsrv.New) on ~20 damaged caches must fail or serve the cached key.",
+    "Oracle: recovery fails or serves the key that was being saved (never another, never an unusable pair), an existing file is never rewritten, file 0600 / directories 0700 at every point. Damage classes: 16 (every single-bit flip of the low six bits and the top bit, +1, -1, six fixed characters); restarts of caches whose certificate lives 1 ns / 1 s / 1 h. Above GetCertificate: every history of <=3 starts through sstls.Listen (fine / address in use / bad address) on one cache path, from a missing and an existing cache; the HTTPS server started the program's way (hsrv.New) on ~20 damaged caches must fail or serve the cached key. The os shim can also make the cache write fail (ENOSPC after k bytes): successive starts all reported as successful present one key. Cache paths with .. after a symbolic link, doubled separators, dot segments.",
     "A crash stops the process at a call boundary or inside WriteFile after k bytes, with what was written durable; only lib/sstls's own os calls are intercepted (txtar reads through the real os).",
     "DESIGN.md 5 C08")
 
@@ -153,7 +153,7 @@ chk("C20", "fault_enumeration",
     "exhaustive enumeration of single and paired start-up faults x informational flag x tty, and of self-initiated exits, on the real binary with termios compared",
     "The real curlrevshell binary, as session leader on a fresh pty or without any controlling terminal: every single fault of {listen address: bad syntax / port bound / not local; cache: empty / cut before the key / garbage / unwritable path; "
     "log path: parent missing / parent is a file; Ctrl+I source missing} and every pair from different resources x {no flag, -print-default-template, -print-ctrl-i, -h} x {pty, no tty}; every self-initiated exit (Ctrl+C, Ctrl+D, -one-shell completion; idle and with a shell attached over real TLS). "
-    "Oracle: no panic / stack trace, non-zero status with a message naming a cause (or the requested output with status 0), exit 0 + 'Goodbye.' for self exits, termios after exit equal to termios before start. Cache faults include a directory that exists but takes no files. Every exit and every single fault is also run with GOGC=1 (collector and finalizers running all the time). Exits also include leaving while an insertion is under way (Tab then Ctrl+D; queue full, Tab, Ctrl+D).",
+    "Oracle: no panic / stack trace, non-zero status with a message naming a cause (or the requested output with status 0), exit 0 + 'Goodbye.' for self exits, termios after exit equal to termios before start. Cache faults include a directory that exists but takes no files. Every exit and every single fault is also run with GOGC=1 (collector and finalizers running all the time). Exits also include leaving while an insertion is under way (Tab then Ctrl+D; queue full, Tab, Ctrl+D). A controlling terminal with standard input /dev/null: the terminal is as it was found.",
     "Which of two faults is named and whether an informational flag wins over a fault is not fixed by the statement: either accepted. Root ignores file modes, so 'unwritable' is a parent that is a regular file.",
     "DESIGN.md 5 C20")
 
@@ -161,14 +161,14 @@ chk("C12", "exploration",
     "bounded exhaustive enumeration of -one-shell session histories of the real binary on a pty with real TLS clients",
     "The real binary with -one-shell: pre-attempt sequences (length <=1 quick, <=2 thorough) over {half-attached input that leaves, half-attached output that leaves, refused output beside a held input} x arrival {/i then /o, /o then /i, /io} "
     "x ending {input closed, output closed, both, output EOF} x traffic in flight x exit trigger {line, Ctrl+D}; oracle: TCP connects succeed before the shell is fully attached (also while half attached) and are refused within 20 s after the ready notice; "
-    "a marker goes both ways right after the close and again 2.5 s later; nothing in flight is lost; no one-liners after the shell is gone; exit 0 with Goodbye after at most one more line; termios restored. Also two in-process scenarios: a stalled operator channel at the moment the shell becomes ready (Server.Do must still end with the expected closure), and a broker busy delivering an earlier event when the server starts (the first shell's connected event must not be lost). Pre-attempts include a refused /io client beside a held input; two sessions are left alone for 8 s (thorough 35 s) after the listener closed before the second round trip.",
+    "a marker goes both ways right after the close and again 2.5 s later; nothing in flight is lost; no one-liners after the shell is gone; exit 0 with Goodbye after at most one more line; termios restored. Also two in-process scenarios: a stalled operator channel at the moment the shell becomes ready (Server.Do must still end with the expected closure), and a broker busy delivering an earlier event when the server starts (the first shell's connected event must not be lost). Pre-attempts include a refused /io client beside a held input; two sessions are left alone for 8 s (thorough 35 s) after the listener closed before the second round trip. Sessions whose shell ends the moment it is ready: the listener still closes, no one-liners, exit at the next line.",
     "'shortly' = refused at some poll within 20 s; the operator's line is entered 3 s after the shell is gone (net/http's graceful shutdown polls at up to 500 ms, a line typed inside that window is consumed first).",
     "DESIGN.md 5 C12")
 
 chk("C19", "model_checking",
     "stateless exhaustive DFS over all event strings of length L on the real opshell.Shell under a virtual clock (import-rewritten time), three-valued reference model",
     "lib/opshell/opshell.go is built with its time import rewritten (overlay) to a virtual clock. The real Shell is constructed by the real New in worker processes whose controlling terminal is a fresh pty, Do running, terminal output captured; "
-    "every event string of length 6 (thorough 8) over {Ctrl+O, plain chunk, status line (four dresses, by position), Ctrl+J preview, +0.1 s, +1.9 s, +2.1 s} is executed (117 649 / 5 764 801 executions), timers firing at their own deadlines with quiescence after each; "
+    "every event string of length 6 (thorough 8) over {Ctrl+O, plain chunk, status line (four dresses, by position), Ctrl+J preview, +0.1 s, +1.9 s, +2.1 s} is executed (117 649 / 5 764 801 executions, plus two fixed floods of 27 and 66 events), timers firing at their own deadlines with quiescence after each; "
     "oracle after every step: a chunk is shown iff the model is un-muted, every status line is shown, exactly one Muting / Already muted / Unmuting announcement where due, nothing suppressed without Ctrl+O, private flag equals the model where the model is sure. "
     "Second exploration (sync import rewritten to a parking mutex): for Ctrl+O typed on stdin together with shell output / a status line / Ctrl+I / a second Ctrl+O, muted or not, every order of the write-lock steps of the goroutines involved is executed (stateless DFS); oracle: the terminal still displays a status line afterwards and no goroutine is stuck on a mutex (found the Ctrl+O deadlock, fixed in 16389e4).",
     "Ctrl+O is delivered through the callback the Shell registered (goxterm's key decoding trusted). Three-valued model: between the two readings of a repeated Ctrl+O and exactly on a 2.0 s boundary either state is accepted. The pause interval in the model is the statement's 2 s. Real time is only used by two sessions of the real binary (Ctrl+O typed on the pty), where only bounds that a loaded machine cannot falsify are judged (muted output never shown, status lines shown, 'Unmuting' no earlier than 2 s after a chunk the program had received, and announced at all).",
